@@ -95,12 +95,12 @@ def main():
         "engines": [
             {"name": "vcheck", "path": "harness", "serves_properties": sorted(PROPS),
              "kind_free_text": "Rust harness (verif_core): truth-table oracles, independent ROBDD builder, reference lexer/LL(1) parser/semantics/printer, tape-decoding generators, bounded-exhaustive enumeration and proptest-driven random generation with shrinking, process spawning of the repo's binaries, replay files, evidence"},
-            {"name": "fuzz", "path": "fuzz", "serves_properties": ["C01", "C08", "C12", "C13"],
+            {"name": "fuzz", "path": "harness/fuzz", "serves_properties": ["C01", "C02", "C08", "C12", "C13"],
              "kind_free_text": "cargo-fuzz / libFuzzer targets that call the same oracles (thorough tier only)"},
         ],
         "checks": checks,
         "not_applicable": [],
-        "notes": "All checks: exit 0 held / exit 1 with `VIOLATION property=<id> replay=<path>` / exit 2 inconclusive (build failure, watchdog). Findings live in known_findings.txt (all repaired by fix: commits), minimal reproductions in regressions/<id>/ and are replayed first by every run.",
+        "notes": "All checks: exit 0 held / exit 1 with `VIOLATION property=<id> replay=<path>` / exit 2 inconclusive (build failure, watchdog). Findings live in known_findings.txt (eleven genuine defects, all repaired by fix: commits in /repo; no known: entry), minimal reproductions in regressions/<id>/ are replayed first by every run. Sensitivity: 66 own mutants (tools/mutants.json), 60 independently written breaking changes (seeded/), 16 behaviour-preserving variants (tools/benign.json); see DESIGN.md appendices C and D.",
     }
     json.dump(m, open("MANIFEST.json", "w"), indent=1)
     print("wrote MANIFEST.json with", len(checks), "checks")
